@@ -274,6 +274,8 @@ class WExec:
         self.role = "new"
         self.nalloc = 0
 
+    inline_calls = ()
+
     def feasible(self, pc):
         self.queries += 1
         if self.deadline is not None and time.time() > self.deadline:
@@ -570,6 +572,15 @@ class WExec:
             self.may_trap(st, z3.BoolVal(True), "array access through null")
         return self.arr_state(a, st)
 
+    def _i31_prefix(self, elems, i, st):
+        """number of leading i31 elements if the symbolic index `i` can only select one of them on this path, else 0"""
+        m_ = 0
+        while m_ < len(elems) and isinstance(elems[m_], I31):
+            m_ += 1
+        if m_ == len(elems) or self.feasible(st.pc + [z3.UGE(i, BV(m_))]) is None:
+            return m_
+        return 0
+
     def arr_len(self, a, st):
         elems, za, zl = self.arr_parts(a, st)
         return BV(len(elems)) if elems is not None else zl
@@ -581,6 +592,12 @@ class WExec:
             self.may_trap(st, z3.UGE(i, BV(len(elems))), "array index out of bounds")
             if z3.is_bv_value(i):
                 v = elems[i.as_long()]
+            elif elems and isinstance(elems[0], I31) and self._i31_prefix(elems, i, st):
+                m_ = self._i31_prefix(elems, i, st)
+                t = elems[m_ - 1].t
+                for k in range(m_ - 2, -1, -1):
+                    t = z3.If(i == BV(k), elems[k].t, t)
+                v = I31(t)
             else:
                 if not all(isinstance(x, Int) for x in elems):
                     raise Unsupported("symbolic index into an array of references")
@@ -606,6 +623,9 @@ class WExec:
             if z3.is_bv_value(i):
                 ne = list(elems)
                 ne[i.as_long()] = v
+            elif isinstance(v, I31) and elems and isinstance(elems[0], I31) and self._i31_prefix(elems, i, st):
+                m_ = self._i31_prefix(elems, i, st)
+                ne = [I31(z3.If(i == BV(k), v.t, x.t)) for k, x in enumerate(elems[:m_])] + list(elems[m_:])
             else:
                 if not isinstance(v, Int):
                     raise Unsupported("symbolic index store of a reference")
@@ -629,6 +649,8 @@ class WExec:
                     return self.ev(f["body"][0], st)
                 finally:
                     st.loc = saved
+        if target is not None and target in self.inline_calls and ("$" + target) in self.m.funcs:
+            return self.call_inline(self.m.funcs["$" + target], args, st)
         if target == "__Str$eq":
             # pure: equality of contents (the LIR/MIR side has the `==` operator here)
             a, b = args
@@ -662,6 +684,45 @@ class WExec:
         if rt == "eq" and isinstance(lt, str) and lt not in ("int", "any", "i31"):
             return Sym(key, lt)
         return self.w.mk(key, "int" if rt == "i32" else ("any" if rt == "eq" else rt))
+
+    def call_inline(self, f, args, st):
+        """execute a callee of the runtime library inside the caller's state (shared heap, path condition and
+        trace).  Only straight-line executions are supported: a callee whose control flow depends on a symbolic
+        value would fork in the middle of an expression."""
+        sub = WState()
+        sub.loc = {}
+        for (n, t), a in zip(f["params"], args):
+            sub.loc[n] = a
+        for n, t in f["locals"]:
+            sub.loc[n] = Int(BV(0)) if t == "i32" else NULL
+        sub.pc = st.pc
+        sub.trace = st.trace
+        sub.steps = 0
+        sub.forks = 0
+        sub.model = st.model
+        sub.heap = st.heap
+        sub.stack = [("seq", f["body"], 0, True)]
+        outer = self.paths
+        self.paths = []
+        work = [sub]
+        try:
+            while work:
+                s_ = work.pop()
+                if s_ is not sub:
+                    raise Unsupported("nested call forks on a symbolic condition")
+                self.step(s_, work)
+                if len(work) > 1:
+                    raise Unsupported("nested call forks on a symbolic condition")
+        finally:
+            inner = self.paths
+            self.paths = outer
+            # a trap inside the callee is a trap of the caller
+            self.paths.extend(p_ for p_ in inner if p_.outcome != "return")
+        rets = [p_ for p_ in inner if p_.outcome == "return"]
+        if len(rets) != 1:
+            raise _Dead()
+        st.model = sub.model
+        return rets[0].value
 
     # ---------------------------------------------------------------- statements / control
     def run(self, fname, args, pc0=(), model0=None):
@@ -847,7 +908,24 @@ class WExec:
                 self.arr_set(a, i_, v, st)
                 continue
             if op == "array.copy":
-                raise Unsupported("array.copy")
+                # (array.copy $dstT $srcT dst dstoff src srcoff n) on arrays of concrete length
+                dst = self.ev(ins[3], st)
+                doff = z3.simplify(self.i32(self.ev(ins[4], st), op))
+                src = self.ev(ins[5], st)
+                soff = z3.simplify(self.i32(self.ev(ins[6], st), op))
+                n = z3.simplify(self.i32(self.ev(ins[7], st), op))
+                de, _, _ = self.arr_parts(dst, st)
+                se, _, _ = self.arr_parts(src, st)
+                if de is None or se is None or not (z3.is_bv_value(doff) and z3.is_bv_value(soff) and z3.is_bv_value(n)):
+                    raise Unsupported("array.copy with a symbolic length or offset")
+                d0, s0, k = doff.as_signed_long(), soff.as_signed_long(), n.as_signed_long()
+                if k < 0 or d0 < 0 or s0 < 0 or d0 + k > len(de) or s0 + k > len(se):
+                    self.may_trap(st, z3.BoolVal(True), "array.copy out of bounds")
+                ne = list(de)
+                ne[d0:d0 + k] = se[s0:s0 + k]
+                key = ("s", dst.key) if isinstance(dst, Sym) else ("a", id(dst))
+                st.heap[key] = (ne, None, None)
+                continue
             if op == "unreachable":
                 self.paths.append(Path(list(st.pc), list(st.trace), "trap", why="unreachable", model=st.model))
                 return
